@@ -499,6 +499,11 @@ type ClientSession struct {
 	// Unsubscribe straight to the resources/subscribe and resources/unsubscribe
 	// RPCs and leaves this map untouched.
 	resourceSubs map[string]context.CancelFunc
+	// resourceSubsClosed is set by Close. No subscriptions/listen stream may be
+	// opened after that: nothing would ever cancel it, so its goroutine would
+	// leak and, if it slipped in before the connection started closing, its
+	// never-answered call would keep Close from returning.
+	resourceSubsClosed bool
 }
 
 type clientSessionState struct {
@@ -1400,6 +1405,10 @@ func (cs *ClientSession) Subscribe(ctx context.Context, params *SubscribeParams)
 
 	var listenCtx context.Context
 	cs.resourceSubsMu.Lock()
+	if cs.resourceSubsClosed {
+		cs.resourceSubsMu.Unlock()
+		return fmt.Errorf("%w: cannot subscribe on a closed session", ErrConnectionClosed)
+	}
 	if _, exists := cs.resourceSubs[uri]; !exists {
 		var cancel context.CancelFunc
 		listenCtx, cancel = context.WithCancel(context.Background())
@@ -1447,12 +1456,13 @@ func (cs *ClientSession) Unsubscribe(ctx context.Context, params *UnsubscribePar
 }
 
 // cancelAllResourceSubscriptions cancels every active SEP-2575 resource
-// subscription opened via Subscribe. The listen goroutines exit
-// asynchronously as their contexts unwind. Called from Close.
+// subscription opened via Subscribe and refuses new ones. The listen
+// goroutines exit asynchronously as their contexts unwind. Called from Close.
 func (cs *ClientSession) cancelAllResourceSubscriptions() {
 	cs.resourceSubsMu.Lock()
 	subs := cs.resourceSubs
 	cs.resourceSubs = nil
+	cs.resourceSubsClosed = true
 	cs.resourceSubsMu.Unlock()
 	for _, cancel := range subs {
 		cancel()
